@@ -19,6 +19,7 @@ import (
 	"strconv"
 	"strings"
 	"sync/atomic"
+	"syscall"
 	"time"
 
 	"github.com/couchbase/nitro/zzverif/vrt"
@@ -130,14 +131,22 @@ func cmdWorker(args []string) {
 }
 
 // watchdog reports an execution that stops reaching scheduling points (a loop without any
-// synchronisation operation cannot be preempted or bounded by the step horizon): after 45 s without
-// a scheduling point while an execution is active it emits a report carrying the violation and
+// synchronisation operation cannot be preempted or bounded by the step horizon): after 40 s of CPU time
+// consumed without a scheduling point while an execution is active it emits a report carrying the violation and
 // the choices made so far, and ends the worker process.
+func cpuSeconds() float64 {
+	var ru syscall.Rusage
+	if syscall.Getrusage(syscall.RUSAGE_SELF, &ru) != nil {
+		return 0
+	}
+	return float64(ru.Utime.Sec+ru.Stime.Sec) + float64(ru.Utime.Usec+ru.Stime.Usec)/1e6
+}
+
 func watchdog(j *Job, shard int, out *bufio.Writer) chan struct{} {
 	stop := make(chan struct{})
 	go func() {
 		last := atomic.LoadUint64(&vrt.Heartbeat)
-		idle := 0
+		cpu0 := cpuSeconds()
 		for {
 			select {
 			case <-stop:
@@ -146,15 +155,16 @@ func watchdog(j *Job, shard int, out *bufio.Writer) chan struct{} {
 			}
 			hb := atomic.LoadUint64(&vrt.Heartbeat)
 			if hb != last || vrt.X == nil {
-				last, idle = hb, 0
+				last, cpu0 = hb, cpuSeconds()
 				continue
 			}
-			idle++
-			if idle >= 9 {
+			// measured in CPU time of this process, not wall time: a worker starved by a loaded machine
+			// does not accumulate CPU, a thread spinning without synchronisation does
+			if cpuSeconds()-cpu0 >= 40 {
 				rep := newReport(j.Name, shard)
 				rep.Exhaustive = false
 				rep.CapHit = "watchdog"
-				rep.violate(Viol{Kind: "hang", Msg: "an execution stopped reaching scheduling points for 45 s: a thread is looping without any synchronisation operation", Site: "no scheduling point", Job: j.Name, Choices: vrt.SnapshotChoices()})
+				rep.violate(Viol{Kind: "hang", Msg: "an execution consumed 40 s of CPU without reaching a scheduling point: a thread is looping without any synchronisation operation", Site: "no scheduling point", Job: j.Name, Choices: vrt.SnapshotChoices()})
 				bs, _ := json.Marshal(rep)
 				out.Write(bs)
 				out.WriteByte('\n')
